@@ -71,8 +71,16 @@ def run(R):
         # IEEE-754: correctly rounded, so s = sqrt(d)*(1+e), |e| <= 2^-53; sqrt(negative) is NaN (handled separately)
         ctx.assume(z3.Implies(d.r >= 0, z3.And(s >= 0, e >= -eps, e <= eps, s * s == d.r * (1 + e) * (1 + e))))
         return E.RealFp(s, "double")
+    def sqrtf_stub(ctx, args):
+        d = args[0]
+        s_ = ctx.fresh("sqrtf", z3.RealSort())
+        e = ctx.fresh("dsqf", z3.RealSort())
+        eps = z3.Q(1, 2 ** 24)
+        ctx.assume(z3.Implies(d.r >= 0, z3.And(s_ >= 0, e >= -eps, e <= eps, s_ * s_ == d.r * (1 + e) * (1 + e))))
+        return E.RealFp(s_, "float")
+    fstubs = {"sqrt": sqrt_stub, "sqrtf": sqrtf_stub, "llvm.sqrt.f64": sqrt_stub, "llvm.sqrt.f32": sqrtf_stub}
     for fma in ("fused", "unfused"):
-        o = E.Opts(int_mode=True, fp_mode="real", stubs={"sqrt": sqrt_stub}, fma=fma)
+        o = E.Opts(int_mode=True, fp_mode="real", stubs=fstubs, fma=fma)
         c = R.call(h, "stdm", [xi], opts=o)
         r = c.out
         V = xi * 65536
